@@ -1,3 +1,400 @@
-//! C08 (library part) — placeholder, filled in below.
-use vcommon::{Report, Rng, ShardArgs};
-pub fn run_one(_args: &ShardArgs, _rng: &mut Rng, _rep: &mut Report, _k: usize) {}
+//! C08 (library part): quitting from the action handler terminates the main task within the bound
+//! and leaves no supervised process behind. Real `vchild` processes, real time.
+
+use std::{
+	collections::BTreeMap,
+	path::{Path, PathBuf},
+	sync::{Arc, Mutex},
+	time::Duration,
+};
+
+use vcommon::{json, mono_ns, Fnv, Heartbeat, Report, Rng, ShardArgs, Value};
+use watchexec::{
+	command::{Command, Program, SpawnOptions},
+	job::Job,
+	Config, Watchexec,
+};
+use watchexec_events::{Event, Priority};
+use watchexec_signals::Signal;
+
+#[derive(Clone, Copy, Debug, PartialEq)]
+enum Wrap {
+	Plain,
+	Grouped,
+	Session,
+}
+
+#[derive(Clone, Copy, Debug, PartialEq)]
+enum React {
+	/// exits this many ms after any signal
+	ExitAfter(u64),
+	Ignore,
+}
+
+#[derive(Clone, Copy, Debug, PartialEq)]
+enum State {
+	Running,
+	NeverStarted,
+	Finished,
+	/// a try_restart_with_signal with this grace was issued just before the quit (timer armed)
+	MidGracefulRestart(u64),
+	Deleted,
+	QueuedControls,
+}
+
+#[derive(Clone, Debug)]
+struct JobSpec {
+	wrap: Wrap,
+	leader: React,
+	grandchildren: Vec<React>,
+	state: State,
+	hold_clone: bool,
+}
+
+#[derive(Clone, Copy, Debug, PartialEq)]
+enum Quit {
+	Abort,
+	Graceful { sig: i32, grace_ms: u64 },
+}
+
+#[derive(Clone, Debug)]
+struct Scn {
+	jobs: Vec<JobSpec>,
+	quit: Quit,
+	same_action: bool,
+}
+
+fn gen(rng: &mut Rng, k: usize) -> Scn {
+	let njobs = match rng.below(8) {
+		0 => 0,
+		1..=4 => 1,
+		5 | 6 => 2,
+		_ => 3 + rng.usize(2),
+	};
+	let react = |rng: &mut Rng| match rng.below(4) {
+		0 => React::Ignore,
+		1 => React::ExitAfter(0),
+		2 => React::ExitAfter(20),
+		_ => React::ExitAfter(5),
+	};
+	let jobs = (0..njobs)
+		.map(|_| JobSpec {
+			wrap: *rng.pick(&[Wrap::Plain, Wrap::Grouped, Wrap::Grouped, Wrap::Session]),
+			leader: react(rng),
+			grandchildren: (0..*rng.pick(&[0usize, 0, 1, 2])).map(|_| react(rng)).collect(),
+			state: *rng.pick(&[
+				State::Running,
+				State::Running,
+				State::Running,
+				State::NeverStarted,
+				State::Finished,
+				State::MidGracefulRestart(150),
+				State::Deleted,
+				State::QueuedControls,
+			]),
+			hold_clone: rng.chance(1, 3),
+		})
+		.collect();
+	let quit = if k % 2 == 0 {
+		Quit::Abort
+	} else {
+		Quit::Graceful { sig: *rng.pick(&[15, 15, 2, 10]), grace_ms: *rng.pick(&[0u64, 100, 300]) }
+	};
+	Scn { jobs, quit, same_action: rng.chance(1, 6) }
+}
+
+fn scn_json(s: &Scn) -> Value {
+	json!({"jobs": s.jobs.iter().map(|j| format!("{j:?}")).collect::<Vec<_>>(), "quit": format!("{:?}", s.quit), "quit_in_the_creating_action": s.same_action})
+}
+
+fn react_args(r: React) -> Vec<String> {
+	match r {
+		React::Ignore => vec!["--ignore".into()],
+		React::ExitAfter(ms) => vec!["--on-signal".into(), format!("any:{ms}")],
+	}
+}
+
+fn command(vchild: &Path, log: &Path, tag: &str, j: &JobSpec) -> Arc<Command> {
+	let mut args = vec![log.display().to_string(), tag.to_string(), "--no-overlap-probe".to_string()];
+	args.extend(react_args(j.leader));
+	for g in &j.grandchildren {
+		args.push("--fork".into());
+		args.push(format!("1:{}", react_args(*g).join(",")));
+	}
+	Arc::new(Command {
+		program: Program::Exec { prog: vchild.to_path_buf(), args },
+		options: SpawnOptions { grouped: j.wrap == Wrap::Grouped, session: j.wrap == Wrap::Session, ..Default::default() },
+	})
+}
+
+#[derive(Clone, Debug)]
+struct Line {
+	pid: i32,
+	pgid: i32,
+	tag: String,
+	ev: String,
+}
+
+fn read_log(p: &Path) -> Vec<Line> {
+	std::fs::read_to_string(p)
+		.unwrap_or_default()
+		.lines()
+		.filter_map(|l| {
+			let f: Vec<&str> = l.splitn(7, ' ').collect();
+			if f.len() < 7 {
+				return None;
+			}
+			Some(Line { pid: f[1].parse().ok()?, pgid: f[3].parse().ok()?, tag: f[5].to_string(), ev: f[6].to_string() })
+		})
+		.collect()
+}
+
+fn alive(pid: i32) -> bool {
+	match std::fs::read_to_string(format!("/proc/{pid}/stat")) {
+		Ok(s) => {
+			let st = s.rfind(')').and_then(|i| s[i + 1..].trim_start().chars().next());
+			!matches!(st, Some('Z') | Some('X') | None) && std::fs::read(format!("/proc/{pid}/cmdline")).map(|c| String::from_utf8_lossy(&c).contains("vchild")).unwrap_or(false)
+		}
+		Err(_) => false,
+	}
+}
+
+fn phase_event(phase: &str) -> Event {
+	let mut md = std::collections::HashMap::new();
+	md.insert("verif-phase".to_string(), vec![phase.to_string()]);
+	Event { tags: vec![], metadata: md }
+}
+
+pub fn run_one(args: &ShardArgs, rng: &mut Rng, rep: &mut Report, k: usize) {
+	let vchild = PathBuf::from(std::env::var("VCHILD").unwrap_or_else(|_| "/verif/target/debug/vchild".into()));
+	let scn = gen(rng, k);
+	let log = args.scratch.join(format!("c08-{k}.log"));
+	std::fs::remove_file(&log).ok();
+	std::fs::write(&log, "").ok();
+	let rt = tokio::runtime::Builder::new_multi_thread().worker_threads(3).enable_all().build().expect("runtime");
+	let hb = Heartbeat::start();
+	let held: Arc<Mutex<Vec<Job>>> = Arc::new(Mutex::new(vec![]));
+	let quit_returned_at: Arc<Mutex<Option<u64>>> = Arc::new(Mutex::new(None));
+
+	let (main_done_at, main_result, setup_ok) = rt.block_on(async {
+		let jobs_in_handler: Arc<Mutex<Vec<(Job, JobSpec)>>> = Arc::new(Mutex::new(vec![]));
+		let config = Config::default();
+		config.throttle(Duration::from_millis(1));
+		{
+			let scn = scn.clone();
+			let vchild = vchild.clone();
+			let log = log.clone();
+			let held = held.clone();
+			let jh = jobs_in_handler.clone();
+			let qr = quit_returned_at.clone();
+			config.on_action_async(move |mut action| {
+				let phases: Vec<String> = action.events.iter().filter_map(|e| e.metadata.get("verif-phase").and_then(|v| v.first().cloned())).collect();
+				let scn = scn.clone();
+				let vchild = vchild.clone();
+				let log = log.clone();
+				let held = held.clone();
+				let jh = jh.clone();
+				let qr = qr.clone();
+				Box::new(async move {
+					for phase in phases {
+						if phase == "setup" {
+							for (i, spec) in scn.jobs.iter().enumerate() {
+								let (_id, job) = action.create_job(command(&vchild, &log, &format!("j{i}"), spec));
+								if spec.state != State::NeverStarted {
+									job.start();
+								}
+								if spec.hold_clone {
+									held.lock().unwrap().push(job.clone());
+								}
+								jh.lock().unwrap().push((job, spec.clone()));
+							}
+						}
+						if phase == "prep" {
+							for (job, spec) in jh.lock().unwrap().iter() {
+								match spec.state {
+									State::Finished => {
+										job.stop();
+									}
+									State::MidGracefulRestart(g) => {
+										job.try_restart_with_signal(Signal::User2, Duration::from_millis(g));
+									}
+									State::Deleted => {
+										job.delete();
+									}
+									State::QueuedControls => {
+										for _ in 0..20 {
+											job.signal(Signal::User1);
+											job.run(|_| {});
+										}
+									}
+									_ => {}
+								}
+							}
+						}
+						if phase == "quit" {
+							match scn.quit {
+								Quit::Abort => action.quit(),
+								Quit::Graceful { sig, grace_ms } => action.quit_gracefully(Signal::from(sig), Duration::from_millis(grace_ms)),
+							}
+							*qr.lock().unwrap() = Some(mono_ns());
+						}
+					}
+					action
+				})
+			});
+		}
+		let wx = Watchexec::with_config(config).expect("with_config");
+		let main = wx.main();
+		let expected_starts: usize = scn.jobs.iter().filter(|j| j.state != State::NeverStarted).map(|j| 1 + j.grandchildren.len()).sum();
+		let mut setup_ok = true;
+		if scn.same_action {
+			// the quit is requested by the very action that creates the jobs: all three phases in one batch
+			for ph in ["setup", "prep", "quit"] {
+				wx.send_event(phase_event(ph), Priority::Normal).await.ok();
+			}
+		} else {
+			wx.send_event(phase_event("setup"), Priority::Urgent).await.ok();
+			// readiness: every process that is going to run has written its `start` line
+			let t0 = std::time::Instant::now();
+			loop {
+				let n = read_log(&log).iter().filter(|l| l.ev == "start").count();
+				if n >= expected_starts {
+					break;
+				}
+				if t0.elapsed() > Duration::from_secs(8) {
+					setup_ok = false;
+					break;
+				}
+				tokio::time::sleep(Duration::from_millis(3)).await;
+			}
+			wx.send_event(phase_event("prep"), Priority::Urgent).await.ok();
+			tokio::time::sleep(Duration::from_millis(25)).await;
+			wx.send_event(phase_event("quit"), Priority::Urgent).await.ok();
+		}
+		match tokio::time::timeout(Duration::from_secs(15), main).await {
+			Ok(Ok(r)) => (Some(mono_ns()), Some(r.map_err(|e| e.to_string())), setup_ok),
+			Ok(Err(e)) => (Some(mono_ns()), Some(Err(format!("join error: {e}"))), setup_ok),
+			Err(_) => (None, None, setup_ok),
+		}
+	});
+	let gap_during = hb.peek_max_gap();
+	// survivors: every pid that ever appeared in the vchild log, polled for up to 2 s
+	let t0 = std::time::Instant::now();
+	let mut survivors: Vec<Line>;
+	loop {
+		let lines = read_log(&log);
+		let mut pids: BTreeMap<i32, Line> = BTreeMap::new();
+		for l in lines {
+			if l.ev == "start" {
+				pids.insert(l.pid, l);
+			}
+		}
+		survivors = pids.into_values().filter(|l| alive(l.pid)).collect();
+		if survivors.is_empty() || t0.elapsed() > Duration::from_secs(2) {
+			break;
+		}
+		std::thread::sleep(Duration::from_millis(20));
+	}
+	let held_n = held.lock().unwrap().len();
+	held.lock().unwrap().clear();
+	rt.shutdown_timeout(Duration::from_millis(300));
+	drop(hb);
+
+	rep.eval();
+	let lines = read_log(&log);
+	rep.count("processes_started", lines.iter().filter(|l| l.ev == "start").count() as u64);
+	rep.count("signals_seen_by_children", lines.iter().filter(|l| l.ev.starts_with("signal")).count() as u64);
+	rep.count("job_handle_clones_held", held_n as u64);
+	let mut f = Fnv::default();
+	f.str(&format!("{:?}", scn.quit)).u64(scn.jobs.len() as u64);
+	for j in &scn.jobs {
+		f.str(&format!("{:?}{:?}{:?}{}", j.wrap, j.state, j.leader, j.grandchildren.len()));
+	}
+	if !scn.jobs.is_empty() {
+		rep.nontrivial(f.finish());
+	}
+	let wit = || json!({"scenario": scn_json(&scn), "child_log": lines.iter().take(60).map(|l| format!("{} {} pgid={} {}", l.tag, l.pid, l.pgid, l.ev)).collect::<Vec<_>>() });
+	let healthy = gap_during < Duration::from_millis(500);
+	if !setup_ok {
+		rep.inconclusive("children-did-not-start-in-time");
+	} else {
+		// (1) termination within the bound
+		let quit_at = *quit_returned_at.lock().unwrap();
+		match (main_done_at, quit_at) {
+			(None, _) => {
+				if healthy {
+					rep.violation(
+						&format!("C08/never-terminates/{}", if scn.quit == Quit::Abort { "abort" } else { "graceful" }),
+						"the main task did not finish within 15 s of the quit request",
+						wit(),
+					);
+				} else {
+					rep.inconclusive("quit-machine-stalled");
+				}
+			}
+			(Some(done), Some(q)) => {
+				let took = Duration::from_nanos(done.saturating_sub(q));
+				let bound = match scn.quit {
+					Quit::Abort => Duration::from_millis(1000),
+					Quit::Graceful { grace_ms, .. } => {
+						let armed = scn.jobs.iter().map(|j| if let State::MidGracefulRestart(g) = j.state { g } else { 0 }).max().unwrap_or(0);
+						Duration::from_millis(armed + grace_ms + 1000)
+					}
+				};
+				rep.max("max_quit_latency_ms", took.as_millis() as u64);
+				if took > bound {
+					if healthy {
+						rep.violation(
+							&format!("C08/late/{}", if scn.quit == Quit::Abort { "abort" } else { "graceful" }),
+							&format!("the main task finished {took:?} after the quit was requested; bound is {bound:?}"),
+							wit(),
+						);
+					} else {
+						rep.inconclusive("quit-late-but-machine-stalled");
+					}
+				}
+			}
+			_ => rep.inconclusive("quit-handler-never-ran"),
+		}
+		if let Some(Err(e)) = &main_result {
+			rep.violation("C08/main-error", &format!("the main task ended with an error after a quit: {e}"), wit());
+		}
+		// (2) no survivor
+		for s in &survivors {
+			let grand = s.tag.contains(".g");
+			let ji: usize = s.tag.trim_start_matches('j').split('.').next().and_then(|x| x.parse().ok()).unwrap_or(0);
+			let spec = scn.jobs.get(ji);
+			let wrap = spec.map_or("?".to_string(), |j| format!("{:?}", j.wrap).to_lowercase());
+			let manner = if scn.quit == Quit::Abort { "abort" } else { "graceful" };
+			if grand {
+				// grandchildren are only promised to be gone after a graceful quit of a grouped / session command
+				if scn.quit != Quit::Abort && spec.map_or(false, |j| j.wrap != Wrap::Plain) {
+					let leader_exits = spec.map_or(false, |j| j.leader != React::Ignore);
+					let member_ignores = spec.and_then(|j| j.grandchildren.first()).map_or(false, |g| *g == React::Ignore) || true;
+					let _ = member_ignores;
+					rep.violation(
+						&format!("C08/survivor/{manner}/{wrap}/group-member/{}", if leader_exits { "leader-exited-on-signal" } else { "leader-killed-at-expiry" }),
+						&format!("process {} ({}) of job {ji}'s process group is still alive 2 s after the graceful quit", s.pid, s.tag),
+						wit(),
+					);
+				}
+			} else {
+				rep.violation(
+					&format!("C08/survivor/{manner}/{wrap}/child/{}", spec.map_or("?".into(), |j| format!("{:?}", j.state).split('(').next().unwrap().to_lowercase())),
+					&format!("process {} ({}) started by job {ji} is still alive 2 s after the {manner} quit{}", s.pid, s.tag, if spec.map_or(false, |j| j.hold_clone) { " (a clone of the job handle is held elsewhere)" } else { "" }),
+					wit(),
+				);
+			}
+		}
+	}
+	if k < 2 {
+		rep.sample(wit());
+	}
+	// clean up whatever is left (also legit survivors such as plain grandchildren after an abort)
+	for l in lines.iter().filter(|l| l.ev == "start") {
+		if alive(l.pid) {
+			unsafe { libc::kill(l.pid, libc::SIGKILL) };
+		}
+	}
+	std::fs::remove_file(&log).ok();
+}
